@@ -69,6 +69,7 @@ struct Plan {
     n_trunc_files: usize,
     depths: Vec<usize>,
     n_tree: usize,
+    n_oplog: usize,
     coq_budget_bytes: usize,
 }
 
@@ -77,20 +78,20 @@ fn plan(tier: &str, prop: &str) -> Plan {
     match (prop, thorough) {
         ("C10", false) => Plan {
             n_chunk_files: 40, n_soups: 500, n_soups_coq: 250, n_mutants: 1500, n_mutants_coq: 500,
-            n_trunc_files: 3, depths: vec![1, 2, 3, 10, 50, 100, 200], n_tree: 120, coq_budget_bytes: 900_000,
+            n_trunc_files: 3, depths: vec![1, 2, 3, 10, 50, 100, 200], n_tree: 120, n_oplog: 400, coq_budget_bytes: 900_000,
         },
         ("C10", true) => Plan {
             n_chunk_files: 400, n_soups: 5000, n_soups_coq: 2500, n_mutants: 30000, n_mutants_coq: 6000,
-            n_trunc_files: 12, depths: vec![1, 2, 3, 5, 10, 20, 50, 100, 150, 200], n_tree: 1200,
+            n_trunc_files: 12, depths: vec![1, 2, 3, 5, 10, 20, 50, 100, 150, 200], n_tree: 1200, n_oplog: 5000,
             coq_budget_bytes: 12_000_000,
         },
         (_, false) => Plan {
             n_chunk_files: 10, n_soups: 1500, n_soups_coq: 100, n_mutants: 5000, n_mutants_coq: 150,
-            n_trunc_files: 6, depths: vec![1, 2, 3, 10, 50, 100, 200], n_tree: 0, coq_budget_bytes: 250_000,
+            n_trunc_files: 6, depths: vec![1, 2, 3, 10, 50, 100, 200], n_tree: 0, n_oplog: 150, coq_budget_bytes: 250_000,
         },
         (_, true) => Plan {
             n_chunk_files: 60, n_soups: 20000, n_soups_coq: 1000, n_mutants: 120000, n_mutants_coq: 1500,
-            n_trunc_files: 40, depths: vec![1, 2, 3, 5, 10, 20, 50, 100, 150, 200], n_tree: 0,
+            n_trunc_files: 40, depths: vec![1, 2, 3, 5, 10, 20, 50, 100, 150, 200], n_tree: 0, n_oplog: 1500,
             coq_budget_bytes: 3_000_000,
         },
     }
@@ -317,6 +318,16 @@ fn driver(out_dir: &str, tier: &str, prop: &str) {
             tree_sel.insert(i);
         }
     }
+    // which inputs also return the parser's op log (TokenStream.v leg): coq inputs <= 1500 bytes
+    let mut oplog_sel: HashSet<usize> = HashSet::new();
+    for (i, inp) in inputs.iter().enumerate() {
+        if oplog_sel.len() >= pl.n_oplog {
+            break;
+        }
+        if inp.coq && inp.text.len() <= 1500 && (inp.cat != "edge" || i % 3 == 0 || inp.text.len() > 6) {
+            oplog_sel.insert(i);
+        }
+    }
     let c09 = prop == "C09";
     let jobs: Vec<(u32, &str)> = inputs
         .iter()
@@ -328,6 +339,9 @@ fn driver(out_dir: &str, tier: &str, prop: &str) {
             }
             if tree_sel.contains(&i) {
                 f |= F_TREE;
+            }
+            if oplog_sel.contains(&i) {
+                f |= F_OPLOG;
             }
             if c09 {
                 f |= F_FORMAT | F_MODES;
@@ -354,6 +368,8 @@ fn driver(out_dir: &str, tier: &str, prop: &str) {
     let mut f1_lists = 0u64;
     let mut lex_cases: Vec<String> = vec![];
     let mut tree_cases: Vec<String> = vec![];
+    let mut oplog_cases: Vec<String> = vec![];
+    let mut oplog_f1 = 0u64;
     let mut samples: Vec<String> = vec![];
     for (i, (inp, o)) in inputs.iter().zip(outcomes.iter()).enumerate() {
         *by_cat.entry(inp.cat.clone()).or_default() += 1;
@@ -416,6 +432,15 @@ fn driver(out_dir: &str, tier: &str, prop: &str) {
                     ));
                 }
             }
+            // the op log: inputs whose only failures are the known signature F1 stay in (the model's
+            // side conditions must fail exactly there); other failing inputs are decided by the oracle
+            if let Some(l) = v["oplog"].as_str().filter(|_| fails_of(v).iter().all(|(_, _, g)| g == SIG_F1)) {
+                let f1 = v["stats"]["f1"].as_u64().unwrap_or(0) > 0;
+                if f1 {
+                    oplog_f1 += 1;
+                }
+                oplog_cases.push(format!("({},\n  {},\n  {})", coqfmt::coq_str(&inp.text), l, f1));
+            }
             // a tree on which the oracle already failed is decided there (violation / known finding),
             // it is not a correspondence case
             if let Some(t) = v["tree"].as_str().filter(|_| fails_of(v).is_empty()) {
@@ -466,9 +491,11 @@ fn driver(out_dir: &str, tier: &str, prop: &str) {
     }
 
     // ---- case shards ----
-    let header = "From Syntax Require Import Lexer Green Corr.\nOpen Scope string_scope.\nOpen Scope N_scope.\n";
+    let header =
+        "From Syntax Require Import Lexer Green TokenStream Corr.\nOpen Scope string_scope.\nOpen Scope N_scope.\n";
     let n_lex_shards = write_shards(out_dir, "lex", header, "check_lex", &lex_cases, 400_000, 400);
     let n_tree_shards = write_shards(out_dir, "tree", header, "check_tree", &tree_cases, 600_000, 60);
+    let n_oplog_shards = write_shards(out_dir, "oplog", header, "check_oplog", &oplog_cases, 500_000, 80);
 
     let n = inputs.len() as u64;
     let summary = json!({
@@ -483,6 +510,7 @@ fn driver(out_dir: &str, tier: &str, prop: &str) {
         "expr_mode_tree_does_not_cover_text": expr_not_cover, "stmts_mode_tree_does_not_cover_text": stmts_not_cover,
         "lex_cases": lex_cases.len(), "lex_shards": n_lex_shards,
         "tree_cases": tree_cases.len(), "tree_shards": n_tree_shards,
+        "oplog_cases": oplog_cases.len(), "oplog_shards": n_oplog_shards, "oplog_cases_with_F1": oplog_f1,
         "oracle_failure_classes": class_counts, "oracle_failing_inputs": failing.len(),
         "trivia_lists_with_signature_F1": f1_lists,
         "workers": nworkers, "run_seconds": t_run, "total_seconds": t0.elapsed().as_secs_f64(),
@@ -492,11 +520,12 @@ fn driver(out_dir: &str, tier: &str, prop: &str) {
         .unwrap();
     fs::write(format!("{out_dir}/samples.txt"), samples.join("\n") + "\n").unwrap();
     println!(
-        "h10 {prop} {tier}: {n} inputs ({} distinct, {} bytes), {} lex cases, {} tree cases, {} failing, {:.0}s",
+        "h10 {prop} {tier}: {n} inputs ({} distinct, {} bytes), {} lex / {} tree / {} oplog cases, {} failing, {:.0}s",
         distinct.len(),
         total_bytes,
         lex_cases.len(),
         tree_cases.len(),
+        oplog_cases.len(),
         failing.len(),
         t0.elapsed().as_secs_f64()
     );
